@@ -13,6 +13,7 @@ import Hy.Drv.Punch
 import Hy.Drv.Stats
 import Hy.Drv.Reconnect
 import Hy.Drv.QuicInitial
+import Hy.Drv.Brutal
 
 open Hy.Drv
 
@@ -47,4 +48,5 @@ def main (args : List String) : IO UInt32 := do
   | ["stats"] => loopState stdin stdout Stats.step Stats.init; return 0
   | ["reconnect"] => loopPure stdin stdout Reconnect.step; return 0
   | ["sniff"] => loopPure stdin stdout QuicInitial.step; return 0
+  | ["brutal"] => loopState stdin stdout Brutal.step Brutal.init; return 0
   | _ => IO.eprintln "usage: hydrv <component>"; return 2
